@@ -97,18 +97,27 @@ structure Order where
   priceAmt : Nat
   ext : Bytes
   allowPartial : Bool
+  /-- the owner string was given in the UPPER-case bech32 spelling (same account bytes; the record keeps
+  the string as it was sent, x/exchange/orders.go:386 only decodes it) -/
+  ownerUp : Bool := false
 deriving DecidableEq, Repr
 
 /-- order type byte: ask 0x00, bid 0x01 -/
 def Order.tb (o : Order) : Nat := if o.isBid then 1 else 0
 
-/-- An empty `target` is "no target". -/
+/-- An empty `target` is "no target".  `source` / `target` are the ACCOUNT BYTES (what every key is
+built from); a bech32 address has two valid spellings (all lower case = canonical, all upper case)
+and the record keeps the string as it was sent (`Payment.Validate` x/exchange/payments.go:11 only
+decodes it): `sourceUp` / `targetUp` say that the stored string is the upper-case one.  The code
+compares these STRINGS in a few places (payments.go:103, :253, :265, :314, :409). -/
 structure Payment where
   source : Bytes
   srcAmt : Nat
   target : Bytes
   tgtAmt : Nat
   ext : Bytes
+  sourceUp : Bool := false
+  targetUp : Bool := false
 deriving DecidableEq, Repr
 
 /-- Store values, abstracted: what the bytes decode to. -/
@@ -500,13 +509,14 @@ def createOrder (s : Store) (o : Order) : Option (Store × UInt64) :=
     | none => none
     | some s2 => some (s2, id)
 
-/-- `CancelOrder` orders.go:709 (+ `ValidateBasic`: id ≠ 0) -/
-def cancelOrder (s : Store) (id : UInt64) (signer : Bytes) : Option Store :=
-  if id = 0 then none else
+/-- `CancelOrder` orders.go:719 (the message's `ValidateBasic`, id ≠ 0, is in `apply`).  `signer != orderOwner` (orders.go:729)
+compares the STRINGS: the owner is recognised only in the spelling the order was created with
+(`signerUp`: the signer string is the upper-case spelling); permissions go by account bytes. -/
+def cancelOrder (s : Store) (id : UInt64) (signer : Bytes) (signerUp : Bool) : Option Store :=
   match getOrderFromStore s id with
   | none => none
   | some o =>
-    if signer ≠ o.owner ∧ ¬ hasPermission s o.market signer then none
+    if (signer ≠ o.owner ∨ signerUp ≠ o.ownerUp) ∧ ¬ hasPermission s o.market signer then none
     else some (deleteAndDeIndexOrder s o)
 
 /-- `SetOrderExternalID` orders.go:738 behind `MarketSetOrderExternalID` msg_server.go:143 -/
@@ -526,7 +536,7 @@ def setOrderExternalID (s : Store) (m : UInt32) (id : UInt64) (newExt : Bytes) (
 /-- `CancelAllOrdersForMarket` orders.go:820 -/
 def cancelAllOrdersForMarket (s : Store) (m : UInt32) (signer : Bytes) : Store :=
   (iterateOrderIndex s (prefixMarketToOrder m)).foldl
-    (fun acc e => match cancelOrder acc e.1 signer with | some s' => s' | none => acc) s
+    (fun acc e => match cancelOrder acc e.1 signer false with | some s' => s' | none => acc) s
 
 /-- the store updates of `closeSettlement` fulfillment.go:300-310 when one order is filled in part:
 `setOrderInStore` of the part left, `deleteAndDeIndexOrder` of the filled order -/
@@ -612,7 +622,9 @@ def releaseAllCommitmentsForMarket (s : Store) (m : UInt32) : Store :=
       | some (a, []) => (match releaseCommitment acc m a 0 with | some s' => s' | none => acc)
       | _ => acc) s
 
-/-- `CloseMarket` market.go:1601 -/
+/-- `CloseMarket` market.go:1601: "disables order and commitment creation in a market, cancels all its
+existing orders, and releases all its commitments" — the two flag updates may fail (the flag is already
+off) and their errors are DISCARDED; the orders are cancelled and the commitments released in any case. -/
 def closeMarket (s : Store) (m : UInt32) : Store :=
   let s1 := if isMarketAcceptingOrders s m then s.set (keyMarketNotAcceptingOrders m) .empty else s
   let s2 := if isMarketAcceptingCommitments s1 m then s1.del (keyMarketAcceptingCommitments m) else s1
@@ -625,6 +637,17 @@ def updateAcceptingOrders (s : Store) (m : UInt32) (accepting : Bool) (signer : 
   else if isMarketAcceptingOrders s m = accepting then none
   else some (if accepting then s.del (keyMarketNotAcceptingOrders m)
              else s.set (keyMarketNotAcceptingOrders m) .empty)
+
+/-- `MarketUpdateAcceptingCommitments` msg_server.go:216 → `UpdateMarketAcceptingCommitments`
+market.go:934.  The harness's markets define no commitment fees, so only the authority may switch
+commitments ON (`validateMarketUpdateAcceptingCommitments` market.go:822-827 is skipped for it). -/
+def updateAcceptingCommitments (s : Store) (m : UInt32) (accepting : Bool) (signer : Bytes) : Option Store :=
+  if m = 0 then none
+  else if ¬ hasPermission s m signer then none
+  else if isMarketAcceptingCommitments s m = accepting then none
+  else if accepting = true ∧ signer ≠ authority then none
+  else some (if accepting then s.set (keyMarketAcceptingCommitments m) .empty
+             else s.del (keyMarketAcceptingCommitments m))
 
 /-! ### Payments (payments.go) -/
 
@@ -641,7 +664,10 @@ def setPaymentInStore (s : Store) (p : Payment) : Store :=
     match getPaymentFromStore s p.source p.ext with
     | some existing =>
       if existing.target = [] then (iKey0, none)
-      else if existing.target = p.target then (none, none)
+      -- `case payment.Target:` payments.go:103 — the same STRING: same account, same spelling
+      else if existing.target = p.target ∧ existing.targetUp = p.targetUp then (none, none)
+      -- otherwise the old entry is deleted FIRST and the new one written after it (payments.go:117-123);
+      -- for a re-spelled target the two are the SAME key
       else (iKey0, some (idxTargetToPayment existing.target p.source p.ext))
     | none => (iKey0, none)
   let s1 := s.set (keyPayment p.source p.ext) (.payment p)
@@ -663,19 +689,26 @@ def deletePaymentFromStore (s : Store) (p : Payment) : Store :=
   let s1 := s.del (keyPayment p.source p.ext)
   if p.target ≠ [] then s1.del (idxTargetToPayment p.target p.source p.ext) else s1
 
-/-- `AcceptPayment` payments.go:230; the request repeats the stored payment with target `t`. -/
-def acceptPayment (s : Store) (source ext t : Bytes) : Option Store :=
+/-- `AcceptPayment` payments.go:230; the request repeats the stored payment with source spelling
+`sourceUp` and target `t` in spelling `tUp`; source and target are compared as STRINGS
+(payments.go:253, :265). -/
+def acceptPayment (s : Store) (source ext t : Bytes) (sourceUp tUp : Bool) : Option Store :=
   if source = [] ∨ t = [] ∨ ext.length > 100 then none
   else match getPaymentFromStore s source ext with
     | none => none
-    | some existing => if t ≠ existing.target then none else some (deletePaymentFromStore s existing)
+    | some existing =>
+      if sourceUp ≠ existing.sourceUp ∨ t ≠ existing.target ∨ tUp ≠ existing.targetUp then none
+      else some (deletePaymentFromStore s existing)
 
-/-- `RejectPayment` payments.go:298 -/
+/-- `RejectPayment` payments.go:298.  The message's target is decoded to bytes by the msg server and
+compared as the CANONICAL string with the stored one (`payment.Target != target.String()`
+payments.go:314): a payment whose target is stored in the upper-case spelling is refused here. -/
 def rejectPayment (s : Store) (t source ext : Bytes) : Option Store :=
   if t = [] ∨ source = [] ∨ ext.length > 100 then none
   else match getPaymentFromStore s source ext with
     | none => none
-    | some p => if p.target = [] ∨ p.target ≠ t then none else some (deletePaymentFromStore s p)
+    | some p => if p.target = [] ∨ p.target ≠ t ∨ p.targetUp = true then none
+                else some (deletePaymentFromStore s p)
 
 /-- `getPaymentsForTargetAndSourceFromStore` payments.go:48 -/
 def getPaymentsForTargetAndSource (s : Store) (t source : Bytes) : List Payment :=
@@ -683,11 +716,13 @@ def getPaymentsForTargetAndSource (s : Store) (t source : Bytes) : List Payment 
   else (prefixStore s (prefixTargetToPaymentsForSource t source)).filterMap
     (fun e => getPaymentFromStore s source e.1)
 
-/-- `RejectPayments` payments.go:330 (+ `ValidateBasic`: no duplicate sources) -/
-def rejectPayments (s : Store) (t : Bytes) (sources : List Bytes) : Option Store :=
-  if t = [] ∨ sources = [] ∨ ¬ sources.Nodup ∨ sources.any (· = []) then none
+/-- `RejectPayments` payments.go:330.  `ValidateBasic` (x/exchange/msgs.go:614) refuses duplicate source
+STRINGS — the two spellings of one account are different strings —, the keeper then skips the sources it
+has already seen by account BYTES (payments.go:345). -/
+def rejectPayments (s : Store) (t : Bytes) (sources : List (Bytes × Bool)) : Option Store :=
+  if t = [] ∨ sources = [] ∨ ¬ sources.Nodup ∨ sources.any (·.1 = []) then none
   else
-    let per := sources.map (getPaymentsForTargetAndSource s t)
+    let per := (sources.map (·.1)).eraseDups.map (getPaymentsForTargetAndSource s t)
     if per.any (·.isEmpty) then none
     else some (per.flatten.foldl deletePaymentFromStore s)
 
@@ -698,14 +733,16 @@ def cancelPayments (s : Store) (source : Bytes) (exts : List Bytes) : Option Sto
     | none => none
     | some ps => some (ps.foldl deletePaymentFromStore s)
 
-/-- `UpdatePaymentTarget` payments.go:397 -/
+/-- `UpdatePaymentTarget` payments.go:397.  The new target arrives as bytes and is stored in the
+canonical spelling (`newTarget.String()`); "already has target" (payments.go:409) compares STRINGS,
+so changing an upper-case target to the same account is an accepted change. -/
 def updatePaymentTarget (s : Store) (source ext newTarget : Bytes) : Option Store :=
   if source = [] ∨ ext.length > 100 then none
   else match getPaymentFromStore s source ext with
     | none => none
     | some existing =>
-      if existing.target = newTarget then none
-      else some (setPaymentInStore s { existing with target := newTarget })
+      if existing.target = newTarget ∧ existing.targetUp = false then none
+      else some (setPaymentInStore s { existing with target := newTarget, targetUp := false })
 
 /-! ### Operations and histories -/
 
@@ -713,16 +750,17 @@ inductive Op
   | mkMarket (id : UInt32) (name : String)
   | closeMarket (m : UInt32)
   | setAccepting (m : UInt32) (accepting : Bool) (signer : Bytes)
+  | setAcceptingCommitments (m : UInt32) (accepting : Bool) (signer : Bytes)
   | create (o : Order)
-  | cancel (id : UInt64) (signer : Bytes)
+  | cancel (id : UInt64) (signer : Bytes) (signerUp : Bool)
   | setExt (m : UInt32) (id : UInt64) (ext : Bytes) (signer : Bytes)
   | settle (m : UInt32) (askId bidId : UInt64) (expectPartial : Bool) (signer : Bytes)
   | commit (m : UInt32) (a : Bytes) (amt : Nat)
   | release (m : UInt32) (a : Bytes) (amt : Nat) (signer : Bytes)
   | pay (p : Payment)
-  | payAccept (source ext t : Bytes)
+  | payAccept (source ext t : Bytes) (sourceUp tUp : Bool)
   | payReject (t source ext : Bytes)
-  | payRejectAll (t : Bytes) (sources : List Bytes)
+  | payRejectAll (t : Bytes) (sources : List (Bytes × Bool))
   | payCancel (source : Bytes) (exts : List Bytes)
   | payTarget (source ext newTarget : Bytes)
 deriving Repr
@@ -739,14 +777,17 @@ def apply (st : State) : Op → Option (State × Res)
   | .mkMarket id name => (createMarket st id name).map fun (st', m) => (st', .marketId m)
   | .closeMarket m => if m = 0 then none else some ({ st with kv := closeMarket st.kv m }, .none)
   | .setAccepting m a signer => withKv st (updateAcceptingOrders st.kv m a signer)
+  | .setAcceptingCommitments m a signer => withKv st (updateAcceptingCommitments st.kv m a signer)
   | .create o => (createOrder st.kv o).map fun (kv, id) => ({ st with kv := kv }, .orderId id)
-  | .cancel id signer => withKv st (cancelOrder st.kv id signer)
+  | .cancel id signer up =>
+    if id = 0 then none   -- `MsgCancelOrderRequest.ValidateBasic` x/exchange/msgs.go:151
+    else withKv st (cancelOrder st.kv id signer up)
   | .setExt m id ext signer => withKv st (setOrderExternalID st.kv m id ext signer)
   | .settle m a b p signer => withKv st (settle st.kv m a b p signer)
   | .commit m a amt => withKv st (commitFunds st.kv m a amt)
   | .release m a amt signer => withKv st (marketReleaseCommitment st.kv m a amt signer)
   | .pay p => withKv st (createPayment st.kv p)
-  | .payAccept s e t => withKv st (acceptPayment st.kv s e t)
+  | .payAccept s e t su tu => withKv st (acceptPayment st.kv s e t su tu)
   | .payReject t s e => withKv st (rejectPayment st.kv t s e)
   | .payRejectAll t ss => withKv st (rejectPayments st.kv t ss)
   | .payCancel s es => withKv st (cancelPayments st.kv s es)
